@@ -14,6 +14,13 @@ use std::collections::HashSet;
 use target_actor::{ActorId, ActorInputMessage, ExecutionKind, TargetActorOutputMessage};
 pub use target_actors::TargetActors;
 
+#[cfg(zinoma_verif)]
+pub mod verif_reexports {
+    pub use super::builder::{build_target, BuildCancellationMessage, BuildTerminationReport};
+    pub use super::target_actor::{ActorId, ActorInputMessage, ExecutionKind, TargetActorOutputMessage};
+    pub use super::watcher::{TargetInvalidatedMessage, TargetWatcher};
+}
+
 pub async fn run(
     root_target_ids: Vec<TargetId>,
     watch_option: WatchOption,
